@@ -22,7 +22,9 @@ type PitCsTree struct {
 
 	root *pitCsTreeNode
 
-	nPitEntries int
+	// nPitEntries is the number of PIT entries as told to other goroutines: management
+	// reads it (PitSize) while the forwarding thread inserts and reaps entries.
+	nPitEntries atomic.Int64
 	pitTokenMap map[uint32]*nameTreePitEntry
 
 	// nCsEntries is the number of CS entries as told to other goroutines: management
@@ -175,7 +177,7 @@ func (p *PitCsTree) InsertInterest(interest *spec.Interest, hint enc.Name, inFac
 	}
 
 	if entry == nil {
-		p.nPitEntries++
+		p.nPitEntries.Add(1)
 		entry = new(nameTreePitEntry)
 		entry.node = node
 		entry.pitCsTable = p
@@ -219,7 +221,7 @@ func (p *PitCsTree) RemoveInterest(pitEntry PitEntry) bool {
 			if len(e.node.pitEntries) == 0 {
 				entry.node.pruneIfEmpty()
 			}
-			p.nPitEntries--
+			p.nPitEntries.Add(-1)
 			delete(p.pitTokenMap, e.token)
 			return true
 		}
@@ -276,7 +278,7 @@ func (p *PitCsTree) findInterestPrefixMatchByNameEnc(name enc.Name) []PitEntry {
 
 // PitSize returns the number of entries in the PIT.
 func (p *PitCsTree) PitSize() int {
-	return p.nPitEntries
+	return int(p.nPitEntries.Load())
 }
 
 // CsSize returns the number of entries in the CS.
